@@ -522,7 +522,16 @@ fn apply_sack_to_sent_queue(
     let before_head = sent_queue.keys().next().cloned();
 
     // 0. Filter out late SACKs
-    if let Some(&lowest_tsn) = sent_queue.keys().next()
+    // The queue is keyed by raw TSN; once it straddles the 2^32 wrap the
+    // numerically smallest key is no longer the oldest chunk.
+    let oldest_tsn = match (sent_queue.keys().next(), sent_queue.keys().next_back()) {
+        (Some(&first), Some(&last)) if last.wrapping_sub(first) > 0x7FFF_FFFF => {
+            sent_queue.range(0x8000_0000u32..).next().map(|(k, _)| *k)
+        }
+        (Some(&first), _) => Some(first),
+        _ => None,
+    };
+    if let Some(lowest_tsn) = oldest_tsn
         && (cumulative_tsn_ack.wrapping_sub(lowest_tsn.wrapping_sub(1)) as i32) < 0
     {
         // This SACK is even older than our earliest outstanding TSN,
